@@ -118,6 +118,7 @@ def c01_jobs(tier):
 
 def c03_jobs(tier):
     jobs = [conc("c03-conc", "c03", require_counters=["subscriptions_with_2plus_consumers", "redeliveries"]),
+            sim("c03-seq-model", "c05", require_nontrivial=False),
             conc("c03-conc-c01mix", "c01", params={"n": 1500 if tier == "quick" else 20000})]
     if tier == "thorough":
         jobs.append(conc("c03-conc-h2", "c03", transport="h2"))
